@@ -15,13 +15,15 @@ import (
 // https://github.com/openconfig/reference/blob/master/rpc/gnmi/gnmi-path-conventions.md#wildcards-in-paths
 func MatchWildcardRegexp(query string, exact bool) *regexp.Regexp {
 	const legalChars = `a-zA-Z0-9_:,\-\.`
-	regexpQuery := strings.ReplaceAll(query, `[`, `\[`)
-	regexpQuery = strings.ReplaceAll(regexpQuery, `*`, `[`+legalChars+`]*?`) // Not greedy
-	regexpQuery = strings.ReplaceAll(regexpQuery, `...`, `.*`)               // greedy
+	// Quote everything except the two wildcards, so that no request text is interpreted as a regular expression
+	regexpQuery := regexp.QuoteMeta(query)
+	regexpQuery = strings.ReplaceAll(regexpQuery, regexp.QuoteMeta(`...`), `.*`)               // greedy
+	regexpQuery = strings.ReplaceAll(regexpQuery, regexp.QuoteMeta(`*`), `[`+legalChars+`]*?`) // Not greedy
 	if exact {
 		return regexp.MustCompile(fmt.Sprintf("^%s$", regexpQuery))
 	}
-	return regexp.MustCompile(fmt.Sprintf("^%s", regexpQuery))
+	// A non-exact match selects the node and everything beneath it, so it must end at a path element boundary
+	return regexp.MustCompile(fmt.Sprintf(`^%s($|[/\[])`, regexpQuery))
 }
 
 // MatchWildcardChNameRegexp creates a Regular Expression from a wild-carded path
